@@ -30,7 +30,9 @@ META = dict(
          "scripts ending in every way (HALT with values on stack and in slots, unhandled THROW, faults inside try/catch/finally, "
          "ABORT, out of gas, depth and stack-size limits, fault in a nested call): outcome and a per-instruction trace (offset, "
          "opcode, item counter, gas, stack/invocation/try depth) must equal the fresh run's; init_state is the specification of "
-         "what Reset re-establishes (C13_reset_is_init).",
+         "what Reset re-establishes (C13_reset_is_init). Slot initialisation: all ordered pairs (and random triples) of INITSSLOT/INITSLOT "
+         "with counts from {0,1,2,255} in one context and across CALL, followed by loads/stores at index 0, n-1, n; two scripts "
+         "loaded on one VM (statics per script); exact fault conditions proved (C13_initslot_once, C13_initsslot_once).",
     note="Correspondence, not translation: vm.go is tied to the specification only on the generated scripts. Trusted: the "
          "hand-written specification, the generated tables' translator, the two serialisers, Coq kernel/vm_compute, the harness.",
 )
